@@ -294,9 +294,9 @@ Qed.
 Lemma SInv_rc sl rc : SInv sl -> SInv (mkSlab rc (sl_items sl) (sl_pl sl)).
 Proof. intros H. exact H. Qed.
 
-Lemma slab_new_inv : SInv (slab_new spp).
+Lemma slab_new_rep : SRep spp (slab_new spp) [] 0.
 Proof.
-  exists [], 0%nat. unfold SRep. cbn [slab_new pagelist_new sl_pl pl_pages pl_free sl_items].
+  unfold SRep. cbn [slab_new pagelist_new sl_pl pl_pages pl_free sl_items].
   assert (Hsh : shape spp [page_new spp 0]).
   { split; [congruence|]. constructor; [apply page_new_length | constructor]. }
   split; [|split].
@@ -306,6 +306,9 @@ Proof.
   - unfold ArcSlabProofsBase.chain. cbn [app length]. rewrite fresh_cons by lia. reflexivity.
   - cbn. rewrite cntp_page_new. reflexivity.
 Qed.
+
+Lemma slab_new_inv : SInv (slab_new spp).
+Proof. exists [], 0%nat. exact slab_new_rep. Qed.
 
 End Proofs.
 
